@@ -57,7 +57,12 @@ ASSUMPTIONS = [
     "a stream first heard of after the subscription window (NEW lost) is owed the notification of the reported "
     "status (+ stream_attach when that line names its circuit), never stream_new",
     "a close request is not made on a gone object whose id is in use again (Tor never re-uses ids that fast)",
-    "values Deferreds fire with are not judged, only success/failure and the moment",
+    "values Deferreds fire with are not judged, only success/failure and the moment (exception: build_circuit(), see below)",
+    "TorState.build_circuit() is requested at random positions; TorSim - like Tor - reports CIRC n LAUNCHED before it "
+    "answers 250 EXTENDED n. One Circuit object per reported circuit may be created, the Deferred must fire once "
+    "with that very object, and when_built() requested on it is judged like any other wait",
+    "a keyword value Tor sent as QuotedString may be handed over in wire form or unescaped; for a line with a quoted "
+    "value containing a blank the keyword arguments are not judged, the notification is",
     "the keyword arguments of circuit_closed/failed and stream_detach/closed/failed must be exactly the KEY=value "
     "fields of the reported line, each under its upper- and lower-case name, and nothing else",
 ]
@@ -90,6 +95,8 @@ FLOORS = {
               "histories_with_all_positions": 3,
               "closed_after_failed_events": 100, "first_seen_in_mid_life_events": 100,
               "final_lines_lacking_an_earlier_keyword": 500,
+              "build_circuit_requests": 60, "build_circuit_results_compared": 60, "circuit_object_counts_compared": 350,
+              "kwargs_compared_with_quoted_value": 25, "kwargs_not_judged_quoted_value_with_blank": 60,
               "listener_exceptions_raised": 40, "close_requests_to_be_refused": 60, "waits_meddled_pending": 130,
               "waits_meddled_cancel": 70, "close_ack_late_then_event": 100,
               "reach:txtorcon.circuit:Circuit.close": 450, "reach:txtorcon.stream:Stream.close": 450,
@@ -110,6 +117,17 @@ KW_METHODS = ("circuit_closed", "circuit_failed", "stream_detach", "stream_close
 # listener doubles
 
 KIND_OF = {"CircuitListener": "c", "StreamListener": "s"}
+
+
+def wire_or_plain(v):
+    """acceptable forms of a keyword value: as sent; a QuotedString also unescaped"""
+    if v.startswith('"') and v.endswith('"') and len(v) >= 2:
+        from ..refs import kvline
+        try:
+            return (v, kvline.unescape(v[1:-1]))
+        except ValueError:
+            return (v,)
+    return (v,)
 
 
 def make_listeners(log, raises):
@@ -233,6 +251,10 @@ class Engine(object):
         self.removed = {"c": {}, "s": {}}      # kind -> uid -> set(listener idx)
         self.dead_reg = {"c": {}, "s": {}}     # kind -> uid -> registrations at the moment the object went
         self.seen_keys = {}                    # (kind, uid) -> keywords Tor has sent for the object so far
+        self.builds = []                       # build_circuit() requests: {"o": Outcome, "uid": .., "followed": ..}
+        self.build_uids = set()
+        self.circuit_objects_created = 0       # by TorState, after the bootstrap
+        self.circuit_first_sights = 0          # circuits Tor reported for the first time, after the bootstrap
         self.raises = []                       # (kind, listener) each time a double raised, per delivery
         self.raise_uids = set()                # objects during whose notification a listener raised
         self.policies = {}
@@ -327,6 +349,12 @@ class Engine(object):
                         "logged": self.ses.errors.take()[:3]})
                 return False
             self.state = self.ses.state
+            make = self.state.circuit_factory
+
+            def counting_factory(*a, **kw):
+                self.circuit_objects_created += 1
+                return make(*a, **kw)
+            self.state.circuit_factory = counting_factory       # (a documented hook of TorState)
         self.pos = "snapshot"
         self.collected.extend(self.snapshot)
         self.after_delivery("snapshot")
@@ -425,6 +453,16 @@ class Engine(object):
                     self.state.add_circuit_listener(self.clisteners[l])
                 else:
                     self.state.add_stream_listener(self.slisteners[l])
+            return
+        if k == "build":
+            self.count("build_circuit_requests")
+            if self.dry:
+                self.dry_queue.append((self.sim.cmd_extendcircuit, "0"))
+                self.dry_drain()
+            else:
+                o = self.ses.auditor.watch(self.state.build_circuit(), "build_circuit")
+                self.builds.append({"o": o, "uid": None, "followed": False, "pos": self.pos})
+            self.pump("build")
             return
         if k == "raise":
             self.count("listeners_armed_to_raise")
@@ -530,6 +568,36 @@ class Engine(object):
             return
         raise ValueError("unknown op %r" % (op,))
 
+    def follow_builds(self):
+        """match build_circuit() requests with the circuits Tor launched for them (in order); once the
+        Deferred has handed out a Circuit, hold on to it: it must be THE object of that circuit and
+        waits on it must complete"""
+        by_ctl = sorted([c for c in list(self.sim.circuits.values()) + list(getattr(self.sim, "dead_circuits", {}).values())
+                         if getattr(c, "by_controller", False) and c.uid not in self.build_uids], key=lambda c: c.uid)
+        for b in self.builds:
+            if b["uid"] is None and by_ctl:
+                c = by_ctl.pop(0)
+                b["uid"], b["id"] = c.uid, c.id
+                self.build_uids.add(c.uid)
+        for b in self.builds:
+            o = b["o"]
+            if b["uid"] is None or b["followed"] or not o.fired or not o.ok:
+                continue
+            b["followed"] = True
+            m, live = self.model_obj("c", b["uid"])
+            known = self.objmap.get(("c", b["uid"]))
+            self.count("build_circuit_results_compared")
+            if o.value is not known or getattr(o.value, "id", None) != b["id"]:
+                self.V("build-circuit-result-is-not-the-circuit-object", "launched-before-reply",
+                       {"circuit": b["id"], "returned_id": repr(getattr(o.value, "id", None)),
+                        "same_object_as_listeners_saw": o.value is known})
+            try:
+                d = o.value.when_built()
+            except Exception as e:      # noqa
+                self.V("exception-escaped", "when_built-on-build_circuit-result", {"exception": repr(e)})
+                continue
+            self.add_wait("when_built", "c", b["uid"], b["id"], d, self.moment("c", m, live))
+
     def meddle(self, w, d, how):
         """what a requester may do with the Deferred it was handed: return a pending Deferred from a
         callback, or cancel it.  None of it may touch the other requesters' waits."""
@@ -588,6 +656,8 @@ class Engine(object):
             self.count("events_delivered" if not ev.snapshot else "snapshot_entries")
             if ev.gone and (ev.first_sight or ev.ghost):
                 self.ghost_ids[(okind, ev.oid)] = ev.uid
+            if okind == "c" and ev.first_sight and not ev.snapshot:
+                self.circuit_first_sights += 1
             if ev.first_sight and not ev.snapshot and ev.status not in ("LAUNCHED", "NEW", "NEWRESOLVE"):
                 self.count("first_seen_in_mid_life_events")
             if ev.ghost and not ev.first_sight:
@@ -652,6 +722,7 @@ class Engine(object):
             if ev.gone:
                 k = "c" if ev.kind == "CIRC" else "s"
                 self.dead_reg[k][ev.uid] = self.reg[k].pop(ev.uid, {})
+        self.follow_builds()
         self.judge_waits_safety(label)
         errs = self.ses.errors.take()
         if errs:
@@ -702,8 +773,15 @@ class Engine(object):
             if kw is not None and k in kwreq:
                 sent, ev = kwreq[k]
                 self.count("kwargs_compared")
-                miss_up = [K for K, v in sent.items() if kw.get(K) != v]
-                miss_lo = [K for K, v in sent.items() if kw.get(K.lower()) != v]
+                if ev.quoted_space:
+                    # the line carries a QuotedString with a blank inside: which keyword values a client
+                    # that splits on blanks hands over is unspecified - the notification itself is owed
+                    self.count("kwargs_not_judged_quoted_value_with_blank")
+                    continue
+                miss_up = [K for K, v in sent.items() if kw.get(K) not in wire_or_plain(v)]
+                miss_lo = [K for K, v in sent.items() if kw.get(K.lower()) not in wire_or_plain(v)]
+                if any(v.startswith('"') for v in sent.values()):
+                    self.count("kwargs_compared_with_quoted_value")
                 allowed = set(sent) | {K.lower() for K in sent}
                 extra = sorted(k2 for k2 in kw if k2 not in allowed)
                 if extra and not (miss_up or miss_lo):
@@ -739,8 +817,9 @@ class Engine(object):
                 scope = "unlistened" if l in self.removed[okind].get(uid, ()) else (
                     "object-unknown" if uid is None else "never-registered")
             ev = [e for e in evs if e.uid == uid and ("c" if e.kind == "CIRC" else "s") == okind]
-            evname = "%s-%s%s%s" % (ev[0].kind, ev[0].status, "-after-FAILED" if ev[0].ghost else "",
-                                    ",first-sight" if ev[0].first_sight else "") if ev else "no-event"
+            evname = "%s-%s%s%s%s" % (ev[0].kind, ev[0].status, "-after-FAILED" if ev[0].ghost else "",
+                                      ",first-sight" if ev[0].first_sight else "",
+                                      ",quoted-value-with-blank" if ev[0].quoted_space else "") if ev else "no-event"
             if g < w:
                 clause = "notification-missing"
             elif w == 0:
@@ -838,6 +917,19 @@ class Engine(object):
             self.V("no-quiescence", "command-unanswered", {"command": repr(pending_cmd)[:100]})
             return
         self.judge_waits_safety("quiescence")
+        for b in self.builds:
+            if b["uid"] is not None and b["o"].fired != 1:
+                self.V("wait-never-completed" if not b["o"].fired else "wait-fired-more-than-once",
+                       "build_circuit,launched-before-reply", {"circuit": b["id"], "fired": b["o"].fired})
+        if self.circuit_objects_created != self.circuit_first_sights:
+            self.V("circuit-objects-created",
+                   "more-than-circuits-reported" if self.circuit_objects_created > self.circuit_first_sights
+                   else "fewer-than-circuits-reported",
+                   {"objects_created_after_bootstrap": self.circuit_objects_created,
+                    "circuits_first_reported_after_bootstrap": self.circuit_first_sights,
+                    "build_circuit_requests": len(self.builds)})
+        else:
+            self.count("circuit_object_counts_compared")
         groups = {}
         for w in self.waits:
             o = w.outcome
@@ -923,7 +1015,9 @@ def random_op(rnd, eng):
     dead_c = list(getattr(sim, "dead_circuits", {}).values())[-3:]
     dead_s = list(getattr(sim, "dead_streams", {}).values())[-3:]
     r = rnd.random()
-    if r < 0.035:
+    if r < 0.03 and len(sim.circuits) < sim.max_circuits:
+        return {"op": "build"}
+    if r < 0.06:
         return {"op": "raise", "k": rnd.choice("cs"), "l": rnd.randrange(N_LISTENERS), "n": rnd.choice([1, 1, 2, 3])}
     if r < 0.16:
         return {"op": "gl+", "k": rnd.choice("cs"), "l": rnd.randrange(N_LISTENERS)}
